@@ -33,6 +33,12 @@ class ScratchSlot:
             ScratchSlot.nextSlotId += 1
             self.isReservedSlot = False
         else:
+            if type(requestedSlotId) is not int:
+                raise TealInputError(
+                    "Invalid slot ID type {}, should be int".format(
+                        type(requestedSlotId)
+                    )
+                )
             if requestedSlotId < 0 or requestedSlotId >= NUM_SLOTS:
                 raise TealInputError(
                     "Invalid slot ID {}, should be in [0, {})".format(
